@@ -282,7 +282,7 @@ func (ex *Exec) builtin(st *State, frID int, instr ssa.Instruction, b *ssa.Built
 		return nil
 	case "close":
 		ch, _ := args[0].(Term)
-		ex.chanClose(st, ch, instr)
+		ex.chanClose(st, ch, instr, cc.Args[0].Type().Underlying().(*types.Chan).Elem())
 		return nil
 	case "print", "println":
 		return nil
